@@ -220,7 +220,7 @@ def r2_completeness(run, F):
 
 def r3_literals(run, F):
     e = F.body("<alpha::common::Expression as alpha::rebuilder::Rebuildable>::rebuild")
-    m = [x for x in hirq.matches(e["hir"]) if len(x["arms"]) > 12][0]
+    m = [x for x in hirq.matches(e["hir"]) if hirq.n_alts(x) > 12][0]
 
     def fmt_of(variant):
         arm = hirq.arm_for(m, "Expression::" + variant)
